@@ -7,6 +7,7 @@ import MwVerif.Driver.C13
 import MwVerif.Driver.C10
 import MwVerif.Driver.C20
 import MwVerif.Driver.Templ
+import MwVerif.Driver.Expr
 
 open MwVerif.Driver
 
@@ -16,6 +17,7 @@ def main (args : List String) : IO UInt32 := do
   match args with
   | ["c15"] => loop stdin stdout C15.step; return 0
   | ["templ"] => loop stdin stdout Templ.step; return 0
+  | ["expr"] => loop stdin stdout Expr.step; return 0
   | ["c20"] => loop stdin stdout C20.step; return 0
   | ["c10"] => loop stdin stdout C10.step; return 0
   | ["c13"] => loop stdin stdout C13.step; return 0
